@@ -9,10 +9,6 @@ import (
 	"time"
 )
 
-func history(c *Case) { fatal("not built yet") }
-func tsync(c *Case)   { fatal("not built yet") }
-func nnp(c *Case)     { fatal("not built yet") }
-
 // killThreadProbe issues the probe from an expendable locked OS thread. If
 // the filter answers KILL_THREAD that thread vanishes from /proc/self/task
 // while the process lives on; the goroutine then never returns, so the
